@@ -3,6 +3,7 @@ package e1
 import "fbverif/sx"
 
 type genState struct {
+	big    bool
 	r      *sx.Rng
 	nextID int64
 	nodes  int
@@ -28,12 +29,16 @@ func (g *genState) tree(depth int, focus string) sx.Tree {
 		disc = r.Chance(35)
 	}
 	kids := []sx.Tree{}
-	if depth < 3 && g.nodes < 9 {
+	maxDepth, maxNodes := 3, 9
+	if g.big {
+		maxDepth, maxNodes = 4, 16
+	}
+	if depth < maxDepth && g.nodes < maxNodes {
 		nk := sx.Pick(r, 0, 1, 1, 2, 2, 3)
 		if depth == 0 && nk == 0 {
 			nk = 1
 		}
-		for i := 0; i < nk && g.nodes < 10; i++ {
+		for i := 0; i < nk && g.nodes < maxNodes+1; i++ {
 			kids = append(kids, g.tree(depth+1, focus))
 		}
 	}
@@ -95,6 +100,11 @@ func comb(r *sx.Rng) (sx.Tree, []sx.Tree) {
 
 // Gen generates one case; the mix of lockstep / free-running and the scenario shapes depend on the focus.
 func Gen(r *sx.Rng, idx int, focus string) sx.Tree {
+	big := false
+	if len(focus) > 0 && focus[len(focus)-1] == '+' { // thorough tier: larger trees, longer scenarios
+		big = true
+		focus = focus[:len(focus)-1]
+	}
 	if (focus == "C04" && r.Chance(25)) || (focus == "C16" && r.Chance(15)) || (focus != "C04" && focus != "C16" && r.Chance(3)) {
 		root, ids := comb(r)
 		if r.Chance(40) { // stalled for the whole emission phase
@@ -103,8 +113,11 @@ func Gen(r *sx.Rng, idx int, focus string) sx.Tree {
 		// slow consumers: every freed slot is a new chance for two producers to meet at a nearly full buffer
 		return sx.T(sx.L(0), sx.L(2), sx.T(root), sx.T(sx.L(int64(r.Next()>>8)), sx.Ints(r.Range(400, 1500), 1)), sx.T(), sx.T(ids...))
 	}
-	g := &genState{r: r}
+	g := &genState{r: r, big: big}
 	nroots := sx.Pick(r, 1, 1, 1, 2)
+	if big {
+		nroots = sx.Pick(r, 1, 1, 2, 3)
+	}
 	cfgs := []sx.Tree{}
 	for i := 0; i < nroots; i++ {
 		cfgs = append(cfgs, g.tree(0, focus))
@@ -164,6 +177,9 @@ func Gen(r *sx.Rng, idx int, focus string) sx.Tree {
 		return sx.Ints(3, r.Range(0, 15), r.Range(0, 3), int64(sx.Pick(r, 0, 0, 1, 2, 3)), r.Range(0, 7))
 	}
 	steps := int(r.Range(5, 45))
+	if big {
+		steps = int(r.Range(20, 110))
+	}
 	for i := 0; i < steps; i++ {
 		switch x := r.Intn(100); {
 		case x < 30:
@@ -182,7 +198,7 @@ func Gen(r *sx.Rng, idx int, focus string) sx.Tree {
 	if !stall {
 		// drain: release everything, several passes
 		for pass := 0; pass < 4; pass++ {
-			for n := int64(0); n < 14; n++ {
+			for n := int64(0); n < int64(netLen(cfgs)); n++ {
 				ints = append(ints, sx.Ints(2, n, 0, int64(sx.Pick(r, 0, 0, 1, 2, 3)), r.Range(0, 7)))
 				ints = append(ints, sx.Ints(3, n, 0, int64(sx.Pick(r, 0, 1, 2)), r.Range(0, 7)))
 			}
